@@ -274,6 +274,42 @@ func (cr *CrashRec) continueOn(cfg Cfg, u *Universe, db *nutsdb.DB, dir string, 
 	g := &Gen{R: cr.Rng, U: u, Cfg: cfg, KV: true, List: ds, Set: ds, ZSet: ds, TTL: true, MaxOps: 4, BigVals: true, M: run.M}
 	c.Log("continuing on %s", where)
 	c.Stat("images_continued", 1)
+	// stage 1: the shortest possible record first (it lands where the interrupted record began, so bytes of a torn
+	// record stay behind it), then Close and Open at once - before later records overwrite those bytes
+	{
+		k := u.KVKeys[0]
+		for _, kk := range u.KVKeys {
+			if len(kk) < len(k) {
+				k = kk
+			}
+		}
+		t := TxSpec{Mode: "update", Ops: []Op{{K: "Put", B: u.Buckets[0], Key: k}}}
+		if strict {
+			run.Tx(t, false)
+		} else {
+			c.Log("tx %s", t.String())
+			if out := execTx(db, t); out.Panic != "" {
+				c.Violate("panic:tx:"+out.Panic, run.Class, fmt.Sprintf("panic in %s while continuing on %s: %s", t.String(), where, out.Panic))
+				return
+			}
+		}
+		if run.Dead {
+			return
+		}
+		if err := db.Close(); err != nil {
+			c.Violate("close-failed", run.Class, fmt.Sprintf("Close failed while continuing on %s: %v", where, err))
+			return
+		}
+		db1, err := openNoPanic(cfg.Options(dir))
+		if err != nil {
+			c.Violate("reopen-failed:"+errClass(err.Error()), run.Class, fmt.Sprintf("the directory recovered from %s got one more small committed record and was closed cleanly; Open then failed: %v", where, err))
+			return
+		}
+		db, run.DB = db1, db1
+		if strict {
+			run.CheckObs("continued-short-record-reopen")
+		}
+	}
 	n := 3 + cr.Rng.Intn(6)
 	for i := 0; i < n && !run.Dead; i++ {
 		g.M = run.M
